@@ -60,7 +60,7 @@ class BkCtorLift(_BkLift):
 
 # C++ spelling -> C spelling of the container calls (operands captured, never spelled)
 BK_RULES = [
-    _BkCall(r"\bqueue_\.(push_left|push_right|enqueue)", "c_{h1}(&self->queue_, {0})", None),
+    _BkCall(r"\bqueue_\.(push_left|push_right|enqueue|try_enqueue)", "c_{h1}(&self->queue_, {0})", None),
     _BkCall(r"\bqueue_\.(pop_left|pop_right|try_dequeue)", "c_{h1}(&self->queue_, &{0})", None),
     _BkCall(r"\bqueue_\.(empty|size_approx)", "c_{h1}(&self->queue_)", None),
 ]
